@@ -106,6 +106,13 @@ def _real_wrap(case):
             return type(e).__name__
 
 
+def show_lines(real):
+    """the model's rendering of a list of lines in which the empty line can occur"""
+    if isinstance(real, str):
+        return real
+    return ",".join(hx(l) or "x" for l in real) or "-"
+
+
 def show_real(real):
     if isinstance(real, str):
         return real
@@ -195,6 +202,85 @@ def gen_string(rng):
     if rng.random() < 0.1:
         out.insert(rng.randrange(len(out) + 1), rng.choice(["", "   ", "          "]))
     return {"W": W, "first": rng.random() < 0.93, "string": "\n".join(out), "before": rng.choice([None, None, 80, 128])}
+
+
+# ---------------------------------------------------------------------------- message block and title
+MSG_WORDS = ["outp=pin_cell.o", "runtpe=pin_cell.r", "xsdir=xsdir_mcnp6.2_endf80", "datapath=/opt/mcnp/data/MCNP_DATA",
+             "mctal=a.m", "wwinp=windows.ww", "c", "$", "ixr", "name=run_0001", "tasks 8", "notek"]
+
+
+def msg_text(rng, n):
+    out = ""
+    while len(out) < n:
+        out += rng.choice(MSG_WORDS) + " " * rng.choice([1, 1, 2])
+    return out[:n] if rng.random() < 0.5 else out
+
+
+def gen_message_case(rng):
+    W = rng.choice([80, 128])
+    version = rng.choice([(5, 1, 60), (6, 1, 0)]) if W == 80 else (6, 2, 0)
+    near = [0, 3, W - 12, W - 11, W - 10, W - 9, W - 8, W - 2, W - 1, W, W + 1, W + 9, W + 40, 2 * W]
+    lines = [msg_text(rng, rng.choice(near)) + rng.choice(["", "", " ", "   ", "\t"])
+             for _ in range(rng.choice([0, 1, 1, 2, 3, 6]))]
+    return {"kind": "message", "W": W, "version": list(version), "lines": lines, "init": rng.random() < 0.5,
+            "title": msg_text(rng, rng.choice(near))}
+
+
+def real_message(case):
+    """Message.format_for_mcnp_input of a block constructed from the lines (init) or of an existing block whose
+    lines were replaced through the API (edited)"""
+    from montepy.input_parser.mcnp_input import Message
+    try:
+        if case["init"]:
+            m = Message([], list(case["lines"]))
+        else:
+            m = Message([], ["x"] * len(case["lines"]))
+            for i, l in enumerate(case["lines"]):
+                m.lines[i] = l
+        return m.format_for_mcnp_input(tuple(case["version"]))
+    except Exception as e:
+        return type(e).__name__
+
+
+def real_title(case):
+    from montepy.input_parser.mcnp_input import Title
+    try:
+        return Title([case["title"]], case["title"]).format_for_mcnp_input(tuple(case["version"]))
+    except Exception as e:
+        return type(e).__name__
+
+
+def message_request(case):
+    return "message %d %d %s" % (case["W"], 1 if case["init"] else 0, "/".join(hx(l) or "x" for l in case["lines"]) or "-")
+
+
+def message_oracle(case):
+    """the written block and title, judged without the model -> None or (kind, detail)"""
+    W = case["W"]
+    out = real_message(case)
+    if isinstance(out, str):
+        return ("message-exception", out)
+    lines = [l.rstrip() for l in case["lines"]] if case["init"] else case["lines"]
+    for l in out:
+        if len(l.expandtabs(8)) > W:
+            return ("message-line-too-long", [len(l.expandtabs(8)), l])
+    if len(out) != len(lines) + 1 or out[-1] != "":
+        return ("message-block-shape", [len(out), len(lines)])
+    for i, (o, l) in enumerate(zip(out, lines)):
+        if i == 0:
+            if not o.startswith("MESSAGE: ") or not l.startswith(o[9:]):
+                return ("message-first-line", [o, l[:60]])
+            if o[9:] != l and len(o) < W - 1:
+                return ("message-cut-too-early", [o, l[:W]])
+        elif not l.startswith(o) or (o != l and len(o) < W - 1):
+            return ("message-line-not-a-prefix", [i, o, l[:60]])
+    t = real_title(case)
+    if isinstance(t, str) or len(t) != 1:
+        return ("title-exception", t)
+    title = case["title"].rstrip()           # Title.__init__ strips trailing whitespace
+    if len(t[0]) > W or not title.startswith(t[0]) or (t[0] != title and len(t[0]) < W - 1):
+        return ("title-line", [len(t[0]), t[0][:60]])
+    return None
 
 
 # ---------------------------------------------------------------------------- string oracle (independent rules)
@@ -328,7 +414,16 @@ def problem_case(rng, idx):
         text = lengthen_comments(rng, text, 128)
     if rng.random() < 0.4 and not P.get("message"):
         text = indent_card_starts(rng, text, width)
+    has_message = bool(P.get("message"))
+    if not has_message and rng.random() < 0.25:
+        # a message block whose lines approach or pass the limits (message lines are not cut when they are read)
+        first = "MESSAGE: " + msg_text(rng, rng.choice([20, 60, 69, 70, 71, 75, 90, 110, 117, 118, 119])).rstrip()
+        more = [" " + msg_text(rng, rng.choice([10, 78, 79, 80, 100, 127])).rstrip() for _ in range(rng.choice([0, 0, 1, 3]))]
+        text = "\n".join([first] + more) + "\n\n" + text
+        has_message = True
     edits = []
+    if has_message and rng.random() < 0.5:
+        edits.append(("message_append", " " + msg_text(rng, rng.choice([5, 30, 60, 120])).rstrip()))
     for _ in range(rng.choice([0, 1, 2, 4])):
         s = rng.choice(P["meta"]["surfaces"])
         edits.append(("surf_const", s, rng.choice([1.23456789012, 123456.789012345, 1e-7 / 3, 7.0])))
@@ -362,6 +457,8 @@ def apply_edits(pr, edits):
                 s.surface_constants = c
         elif e[0] == "title":
             pr.title = e[1]
+        elif e[0] == "message_append" and pr.message is not None and pr.message.lines:
+            pr.message.lines[0] = pr.message.lines[0] + e[1]
 
 
 def block_comment_text(sp):
@@ -393,6 +490,9 @@ def check_problem(case, stats=None):
         n80 = out80.count("\n")
         stats["wrapped80"] += n80 > out128.count("\n")
         stats["comment_continuations80"] += len(re.findall(r"^     \$ ", out80, re.M))
+        if out128.upper().startswith("MESSAGE:"):
+            stats["with_message_block"] += 1
+            stats["message_lines_cut80"] += any(len(l) >= 79 for l in out80.split("\n\n")[0].split("\n"))
     for W, out in ((128, out128), (80, out80)):
         bad = line_rule_violations(out, W)
         if bad:
@@ -439,6 +539,14 @@ def load_case(path):
 
 def case_fails(c):
     """a committed case (string case or whole problem) -> failure description or None"""
+    if c.get("kind") == "message":
+        vlib.coq_make(["Model/Wrap.vo"])
+        ans = vlib.model_ask("Wrap", [message_request(c), "title %d %s" % (c["W"], hx(c["title"]) or "x")])
+        real = show_lines(real_message(c))
+        if ans[0] != real:
+            return {"kind": "correspondence-message", "model": ans[0], "real": real}
+        r = message_oracle(c)
+        return None if r is None else {"kind": r[0], "detail": r[1]}
     if "string" in c:
         vlib.coq_make(["Model/Wrap.vo"])
         ans = vlib.model_ask("Wrap", [request_of(c)])[0]
@@ -483,8 +591,8 @@ def run(ctx):
     if os.path.isdir(cdir):
         for f in sorted(os.listdir(cdir)):
             c = load_case(os.path.join(cdir, f))
-            (corpus_s if "string" in c else corpus_p).append(c)
-    cases = list(corpus_s)
+            (corpus_s if ("string" in c or c.get("kind") == "message") else corpus_p).append(c)
+    cases = [c for c in corpus_s if "string" in c]
     for i in range(n_str):
         cases.append(gen_string(random.Random(f"{ctx.seed}:C10:s:{i}")))
     reqs = [request_of(c) for c in cases]
@@ -498,7 +606,7 @@ def run(ctx):
             "with_dollar": 0, "multi_line_strings": 0, "not_first": 0,
             "overlong_lines": 0, "overlong_c_comment_lines": 0, "overlong_dollar_lines": 0,
             "dollar_comment_appended": 0, "dollar_comment_continued": 0, "dollar_started_on_data_line": 0, "dollar_started_on_own_line": 0,
-            "c_continuation_lines": 0, "with_tab": 0, "corpus_strings": len(corpus_s)}
+            "c_continuation_lines": 0, "with_tab": 0, "corpus_strings": len([c for c in corpus_s if "string" in c])}
     corr_bad = []
     split_bad = []
     sw_reqs, sw_expect = [], []
@@ -573,6 +681,40 @@ def run(ctx):
         ctx.broken_obligations.append({"obligation": "TextWrapper._split (break_on_hyphens=False) = Wrap.split_ws", "detail": sw_bad[:2]})
     if ic_bad:
         ctx.broken_obligations.append({"obligation": "utilities.is_comment = Wrap.is_comment", "detail": ic_bad[:2]})
+    # ---- message block and title: correspondence and oracle
+    n_msg = 400 if ctx.tier == "quick" else 8000
+    mcases = [c for c in corpus_s if c.get("kind") == "message"]
+    mcases += [gen_message_case(random.Random(f"{ctx.seed}:C10:m:{i}")) for i in range(n_msg)]
+    mreq = []
+    for c in mcases:
+        mreq += [message_request(c), "title %d %s" % (c["W"], hx(c["title"]) or "x")]
+    mans = vlib.model_ask("Wrap", mreq)
+    md = {"cases": len(mcases), "init": 0, "edited": 0, "first_line_cut": 0, "other_line_cut": 0, "title_cut": 0,
+          "empty_block": 0, "W": {80: 0, 128: 0}}
+    m_bad = []
+    for k, c in enumerate(mcases):
+        ctx.cov["programs"] += 1
+        ctx.cov["disagreements_checked"] += 1
+        rm, rt = real_message(c), real_title(c)
+        cut = (not isinstance(rm, str)) and any(len(o) >= c["W"] - 1 for o in rm)
+        ctx.count_case(("m", c["W"], c["init"], tuple(c["lines"]), c["title"]), nontrivial=cut)
+        md["init" if c["init"] else "edited"] += 1
+        md["W"][c["W"]] += 1
+        md["empty_block"] += not c["lines"]
+        if c["lines"]:
+            md["first_line_cut"] += len(c["lines"][0].rstrip() if c["init"] else c["lines"][0]) > c["W"] - 10
+            md["other_line_cut"] += any(len(l.rstrip() if c["init"] else l) > c["W"] - 1 for l in c["lines"][1:])
+        md["title_cut"] += len(c["title"].rstrip()) > c["W"] - 1
+        if show_lines(rm) != mans[2 * k]:
+            m_bad.append({"case": c, "real": rm, "model": mans[2 * k]})
+        elif (rt if isinstance(rt, str) else hx(rt[0]) if len(rt) == 1 else "?") != mans[2 * k + 1]:
+            m_bad.append({"case": c, "real_title": rt, "model": mans[2 * k + 1]})
+        r = message_oracle(c)
+        if r is not None:
+            ctx.fail({"kind": r[0], "detail": r[1], "case": c})
+    if m_bad:
+        ctx.broken_obligations.append({"obligation": "correspondence Wrap.message_lines/title_line vs Message/Title.format_for_mcnp_input",
+                                       "detail": {"n": len(m_bad), "first": m_bad[0]}})
     lap("correspondence")
     # ---- the property on the real output of every string case, by the independent rules
     sd = {"lines_judged": 0, "failing_lines": 0, "failing_kinds": {}}
@@ -613,7 +755,7 @@ def run(ctx):
     lap("string_oracle")
     # ---- whole-problem oracle
     pd = {"problems": 0, "with_edits": 0, "read_failed": 0, "write_failed": 0, "wrapped80": 0,
-          "comment_continuations80": 0, "corpus": len(corpus_p)}
+          "comment_continuations80": 0, "with_message_block": 0, "message_lines_cut80": 0, "corpus": len(corpus_p)}
     for i in range(-len(corpus_p), n_prob):
         rng = random.Random(f"{ctx.seed}:C10:p:{i}")
         pc = corpus_p[i + len(corpus_p)] if i < 0 else problem_case(rng, i)
@@ -658,4 +800,5 @@ def run(ctx):
                       "80/128 limits) + generated problems laid out near the limit with comments lengthened to the limit and "
                       "number-growing edits; distinct = distinct (W, first, string) or problem text; non-trivial = the string "
                       "was actually wrapped (or a whole problem)",
-                      extra={"input_distribution": dict(dist, real_calls_that_hung=HANGS["n"]), "string_oracle": sd, "problem_stream": pd, "timing_s": timing})
+                      extra={"input_distribution": dict(dist, real_calls_that_hung=HANGS["n"]), "message_title_stream": md,
+                             "string_oracle": sd, "problem_stream": pd, "timing_s": timing})
